@@ -346,8 +346,13 @@ def expand(args):
                     _record(model, r, out)
                     if opts.get("triples"):
                         # a third event at every later point of the same macro-step
+                        # ("cancels": only two cancellations racing with the first event)
+                        only_cancels = opts["triples"] == "cancels"
                         for e3 in f2:
                             if e3 == e2 or (e3[0] == "cmd" and e2[0] == "cmd" and e3[1] == e2[1]):
+                                continue
+                            if only_cancels and (e2[0] == "cmd" or e3[0] == "cmd"
+                                                 or e2[1] == e3[1]):
                                 continue
                             k3 = k
                             while k3 <= maxk:
